@@ -29,7 +29,9 @@ REQUIRED_CLASSES = ["has-transition", "no-transition", "provider:zoneinfo", "pro
 UTC = timezone.utc
 AWKWARD = ["Africa/Cairo", "Africa/Casablanca", "Pacific/Apia", "Europe/Dublin", "Australia/Lord_Howe", "America/Caracas", "Asia/Tomsk", "Asia/Kathmandu",
            "Europe/Berlin", "America/New_York", "America/Sao_Paulo", "Asia/Tehran", "Pacific/Kiritimati", "Africa/Windhoek", "Asia/Pyongyang",
-           "America/Havana", "Europe/Lisbon", "Antarctica/Troll", "Asia/Gaza", "UTC", "Etc/GMT+5", "Asia/Kolkata", "Pacific/Fiji", "America/Godthab"]
+           "America/Havana", "Europe/Lisbon", "Antarctica/Troll", "Asia/Gaza", "UTC", "Etc/GMT+5", "Asia/Kolkata", "Pacific/Fiji", "America/Godthab",
+           # zones that pass through offset 0 (timedelta(0) is falsy) in either direction
+           "Atlantic/Azores", "America/Scoresbysund", "Europe/London", "Atlantic/Canary", "Atlantic/Madeira", "Atlantic/Faroe", "Africa/El_Aaiun"]
 
 
 @functools.lru_cache(maxsize=None)
